@@ -61,7 +61,7 @@ class SymSim:
   function that a tick/eval function (or a Mamba meta block) is generated from is wrapped for block-level
   fork-and-merge; the schedules themselves (top._sched.*) stay untouched."""
 
-  def __init__(s, top, group='default', merge=True, block_path_budget=4096, extra_modules=(), sched=None):
+  def __init__(s, top, group='default', merge=True, block_path_budget=4096, extra_modules=(), sched=None, nowrap=()):
     from pymtl3.passes.sim.SimpleTickPass import SimpleTickPass
     from pymtl3.passes.mamba.UnrollSimPass import UnrollSimPass
     from pymtl3.passes.mamba.Mamba2020Pass import Mamba2020Pass
@@ -72,6 +72,7 @@ class SymSim:
     s.block_path_budget = block_path_budget
     s.stats = dict(blk_calls=0, blk_paths=0)
     s.logging = False; s.call_log = []
+    s.nowrap = set(nowrap)        # names of scheduled functions with side effects outside the cells (file output): run as they are
     saved = (SimpleTickPass.__dict__['gen_tick_function'], UnrollSimPass.__dict__['gen_tick_function'], Mamba2020Pass.compile_meta_block)
     if merge:
       o1, o2, o3 = saved[0].__func__, saved[1].__func__, saved[2]
@@ -211,6 +212,7 @@ class SymSim:
 
   # -- block-level fork and merge ------------------------------------------------------
   def wrap(s, blk, keep=None):
+    if getattr(blk, '__name__', '') in s.nowrap: return blk
     def wrapper():
       if s.logging: s.call_log.append(blk)
       outer = Explorer.cur
